@@ -571,8 +571,20 @@ Proof. destruct i as [[[G purge] t] H]. unfold check_label, Label_holds.
     destruct o as [rws'|e]; [|discriminate]. exists rws'. split; auto. apply stamped_okb_spec; auto.
   - repeat match goal with |- context [match ?x with _ => _ end] => destruct x end; auto. Qed.
 
+Theorem partial_decider_sound i o : check_partial i o = true -> Partial_holds i o.
+Proof. destruct i as [[[[G purge] keys] targets] H]. unfold check_partial, Partial_holds.
+  destruct (resolve_partials keys targets); auto. apply e2e_decider_sound. Qed.
+
+Lemma each_dbb_spec G purge groups dests : forall dbs rs, each_dbb G purge groups dests dbs rs = true -> each_db G purge groups dests dbs rs.
+Proof. induction dbs as [|H dbs IH]; intros [|r rs] E; cbn in *; try discriminate; auto.
+  apply andb_true_iff in E. destruct E as [E1 E2]. split; auto. apply (e2e_decider_sound (G, purge, groups, dests, H)); auto. Qed.
+Theorem multi_decider_sound i o : check_multi i o = true -> Multi_holds i o.
+Proof. destruct i as [[[[G purge] groups] dests] dbs]. unfold check_multi, Multi_holds. intros CK PRE. rewrite PRE in CK.
+  destruct o as [rs|e]; [|discriminate]. exists rs. split; auto. apply each_dbb_spec; auto. Qed.
+
 Theorem any_decider_sound i o : check_C05_any i o = true -> C05_any_holds i o.
-Proof. destruct i, o; cbn; try discriminate; [apply decider_sound5|apply e2e_decider_sound|apply label_decider_sound]. Qed.
+Proof. destruct i, o; cbn; try discriminate;
+  [apply decider_sound5|apply e2e_decider_sound|apply label_decider_sound|apply partial_decider_sound|apply multi_decider_sound]. Qed.
 
 Lemma pre_subset G purge t H : pre_C05 (G, purge, t, H) = true -> subsetN H (ids G) = true.
 Proof. unfold pre_C05. rewrite !andb_true_iff. tauto. Qed.
@@ -886,3 +898,54 @@ Proof. intros AC NK CLS.
 
 (* C05-e's shape: rows {c1,c2}, targets (d1,d2) with d1 above c1 only and d2 above c2 only *)
 Definition Ge : graph := [mkRev 0 [] [] [] []; mkRev 1 [] [] [] []; mkRev 2 [0] [] [] []; mkRev 3 [1] [] [] []]%N.
+
+(* ================================================================== L. partial ids, several databases *)
+(* a partial id that resolves to t behaves exactly as the full id t *)
+Theorem partial_single G purge keys s t H : ~ cyclic (all_down G) -> ndeps_okb G = true ->
+  resolve_partial keys s = Ok t ->
+  Partial_holds (G, purge, keys, [s], H) (model_partial (G, purge, keys, [s], H)) /\
+  model_partial (G, purge, keys, [s], H) = model_e2e (G, purge, [[t]], Some [t], H).
+Proof. intros AC NK RES. unfold Partial_holds, model_partial, stamp_partial. cbn [resolve_partials]. rewrite RES. cbn [bind map].
+  split; [|reflexivity]. apply (e2e_single G purge t H AC NK). Qed.
+
+(* the prefix rule: what resolve_partial returns is a key of the map that starts with the given string, and the only such
+   key longer than 3 characters unless the string is itself a key *)
+Lemma startswith_refl k : startswith k k = true.
+Proof. induction k as [|c k IH]; cbn; auto. rewrite N.eqb_refl. auto. Qed.
+Theorem resolve_partial_spec keys s t : resolve_partial keys s = Ok t ->
+  exists k, In (k, t) keys /\ startswith k s = true.
+Proof. unfold resolve_partial. destruct (find (fun k => streqb (fst k) s) keys) as [[k x]|] eqn:E.
+  - inversion 1; subst. apply find_some in E. destruct E as [Hin Hs]. cbn [fst] in Hs. exists k. split; auto.
+    unfold streqb in Hs. apply list_eqbN_eq in Hs. subst. apply startswith_refl.
+  - destruct s as [|c s']; [discriminate|].
+    destruct (filter (fun k => Nat.ltb 3 (length (fst k)) && startswith (fst k) (c :: s')) keys) as [|[k x] [|? ?]] eqn:EF; try discriminate.
+    inversion 1; subst. assert (Hin : In (k, t) (filter (fun k => Nat.ltb 3 (length (fst k)) && startswith (fst k) (c :: s')) keys)) by (rewrite EF; left; auto).
+    apply filter_In in Hin. destruct Hin as [Hin Hs]. apply andb_true_iff in Hs. exists k. split; auto. apply Hs. Qed.
+
+(* several databases: the result on database k is the single-database result for its rows *)
+Theorem multi_is_pointwise G purge groups dests : forall dbs rs, stamp_multi G purge groups dests dbs = Ok rs ->
+  length rs = length dbs /\
+  forall k H, nth_error dbs k = Some H -> exists r, nth_error rs k = Some r /\ stamp_cmd G purge groups dests H = Ok r.
+Proof. induction dbs as [|H0 dbs IH]; intros rs E; cbn [stamp_multi] in E.
+  - inversion E; subst. split; auto. intros [|k] H; discriminate.
+  - destruct (stamp_cmd G purge groups dests H0) as [a|e] eqn:E0; cbn [bind] in E; [|discriminate].
+    destruct (stamp_multi G purge groups dests dbs) as [b|e] eqn:E1; cbn [bind] in E; [|discriminate]. inversion E; subst.
+    destruct (IH b eq_refl) as [L P]. split; [cbn; auto|]. intros [|k] H Hk; cbn in *.
+    + inversion Hk; subst. exists a. auto.
+    + apply P; auto. Qed.
+Theorem multi_holds_single G purge t dbs : ~ cyclic (all_down G) -> ndeps_okb G = true ->
+  Multi_holds (G, purge, [[t]], Some [t], dbs) (model_multi (G, purge, [[t]], Some [t], dbs)).
+Proof. intros AC NK. unfold Multi_holds, model_multi, all_in_domain. induction dbs as [|H dbs IH]; intros PRE.
+  - exists []. cbn. auto.
+  - cbn [forallb] in PRE. apply andb_true_iff in PRE. destruct PRE as [P1 P2]. destruct (IH P2) as [rs [E1 E2]].
+    destruct (e2e_single G purge t H AC NK P1) as [r [Er Sr]]. unfold model_e2e in Er.
+    exists (r :: rs). cbn [stamp_multi]. rewrite Er, E1. cbn [bind each_db]. split; auto. split; auto.
+    intros _. exists r. auto. Qed.
+Theorem multi_holds_base G purge dbs : ~ cyclic (all_down G) -> ndeps_okb G = true ->
+  Multi_holds (G, purge, [[]], None, dbs) (model_multi (G, purge, [[]], None, dbs)).
+Proof. intros AC NK. unfold Multi_holds, model_multi, all_in_domain. induction dbs as [|H dbs IH]; intros PRE.
+  - exists []. cbn. auto.
+  - cbn [forallb] in PRE. apply andb_true_iff in PRE. destruct PRE as [P1 P2]. destruct (IH P2) as [rs [E1 E2]].
+    destruct (e2e_base G purge H AC NK P1) as [r [Er Sr]]. unfold model_e2e in Er.
+    exists (r :: rs). cbn [stamp_multi]. rewrite Er, E1. cbn [bind each_db]. split; auto. split; auto.
+    intros _. exists r. auto. Qed.
